@@ -63,6 +63,10 @@ type G struct {
 	lastVer       map[*MutexState]uint64
 	spinLock      bool
 	realID        int64
+	// happens-before race detection (race.go)
+	idx     int
+	vc      vclock
+	syncSeq uint64
 }
 
 type chanInfo struct {
@@ -70,6 +74,11 @@ type chanInfo struct {
 	msgs   []uint64
 	closed bool
 	ext    bool // not created under the scheduler (e.g. ctx.Done())
+	// race detection: clocks carried by the queued messages, by the receives (capacity edge) and by close
+	msgVC   []vclock
+	recvVC  []vclock
+	sent    int
+	closeVC vclock
 }
 
 // Point is one scheduling decision.
@@ -109,6 +118,14 @@ type Exec struct {
 	StepLimit   int
 	mu          sync.Mutex
 	finished    bool
+	// race detection (race.go)
+	race   bool
+	shadow map[uintptr]*cell
+	pins   []interface{}
+	Races  map[string]bool
+	kvVC   vclock
+	ioVC   vclock
+	ctxVC  vclock
 }
 
 // X is the current execution (nil = scheduler off).
@@ -167,6 +184,12 @@ func Go(f func()) {
 	g.hash = h64("spawn", parent.hash, parent.spawnN)
 	parent.hash = h64(parent.hash, "go", parent.spawnN)
 	g.pend = op{kind: opStart}
+	if x.race {
+		g.idx = len(x.order)
+		g.vc = append(parent.vc.clone(), make(vclock, g.idx+1-len(parent.vc))...)
+		g.vc[g.idx] = 1
+		parent.tick()
+	}
 	x.order = append(x.order, g)
 	go x.runG(g, f)
 }
@@ -214,6 +237,7 @@ func (x *Exec) crash(r interface{}) {
 
 func (x *Exec) park(g *G, o op) {
 	g.pend = o
+	g.syncSeq++
 	x.switchFrom(g, false)
 	if g.abort || x.Status != "" {
 		panic(abortT{})
@@ -271,6 +295,14 @@ func PreSend(ch interface{}, site string) {
 	x.park(g, op{kind: opSend, ch: p, cid: ci.cid, site: site, rv: rv})
 	id := h64("msg", g.hash, len(ci.msgs))
 	ci.msgs = append(ci.msgs, id)
+	if x.race {
+		if c := rv.Cap(); ci.sent >= c && ci.sent-c < len(ci.recvVC) {
+			x.acquire(g, ci.recvVC[ci.sent-c])
+		}
+		ci.sent++
+		ci.msgVC = append(ci.msgVC, g.vc.clone())
+		g.tick()
+	}
 	g.hash = h64(g.hash, "send", ci.cid)
 	g.fruitless = map[uint64]bool{}
 	x.trace(g, "send "+site)
@@ -291,6 +323,7 @@ func PreRecv(ch interface{}, site string) {
 		x.unsupported("receive on an unbuffered channel at " + site)
 	}
 	x.park(g, op{kind: opRecv, ch: p, cid: ci.cid, site: site, rv: rv})
+	x.recvSync(g, ci)
 	if len(ci.msgs) > 0 {
 		id := ci.msgs[0]
 		ci.msgs = ci.msgs[1:]
@@ -320,6 +353,7 @@ func Taken(ch interface{}, site string) {
 		return
 	}
 	_, _, ci := x.chanOf(ch, site)
+	x.recvSync(g, ci)
 	if len(ci.msgs) > 0 {
 		id := ci.msgs[0]
 		ci.msgs = ci.msgs[1:]
@@ -354,6 +388,9 @@ func PreClose(ch interface{}, site string) {
 	p, rv, ci := x.chanOf(ch, site)
 	x.park(g, op{kind: opClose, ch: p, cid: ci.cid, site: site, rv: rv})
 	ci.closed = true
+	if x.race {
+		x.release(g, &ci.closeVC)
+	}
 	g.hash = h64(g.hash, "close", ci.cid)
 	g.fruitless = map[uint64]bool{}
 	x.trace(g, "close "+site)
@@ -417,6 +454,9 @@ func PointAt(tag string) {
 		return
 	}
 	x.park(g, op{kind: opPoint, site: tag})
+	if x.race {
+		x.pointSync(g, tag)
+	}
 	g.hash = h64(g.hash, "point", tag)
 	g.fruitless = map[uint64]bool{}
 	x.trace(g, "point "+tag)
@@ -509,6 +549,7 @@ type MutexState struct {
 	ver  uint64
 	id   uint64
 	real sync.Mutex
+	vc   vclock
 }
 
 func (m *MutexState) ensure(g *G) {
@@ -529,6 +570,9 @@ func (m *MutexState) Lock() {
 	spinPos := g.lastUnlock == m
 	x.park(g, op{kind: opLock, cid: m.id, mu: m, site: "lock"})
 	m.held = true
+	if x.race {
+		x.acquire(g, m.vc)
+	}
 	if spinPos && g.lastVer[m] == m.ver {
 		// re-locking right after our own unlock with nothing changed in between: a spin iteration
 		g.markFruitless(h64("lock", m.id, m.ver))
@@ -547,6 +591,9 @@ func (m *MutexState) Unlock() {
 		return
 	}
 	m.held = false
+	if x.race {
+		x.release(g, &m.vc)
+	}
 	if g.spinLock {
 		g.lastUnlock = m
 		g.spinLock = false
@@ -569,6 +616,7 @@ type WGState struct {
 	n    int
 	id   uint64
 	real sync.WaitGroup
+	vc   vclock
 }
 
 func (w *WGState) Add(d int) {
@@ -582,6 +630,9 @@ func (w *WGState) Add(d int) {
 		w.id = h64("wg", g.hash, g.newN)
 	}
 	w.n += d
+	if x.race && d < 0 {
+		x.release(g, &w.vc)
+	}
 	g.hash = h64(g.hash, "wgadd", w.id, d)
 	if d < 0 {
 		x.progress(g)
@@ -608,6 +659,9 @@ func (w *WGState) Wait() {
 		w.id = h64("wg", g.hash, g.newN)
 	}
 	x.park(g, op{kind: opWait, wg: w, cid: w.id, site: "wg.Wait"})
+	if x.race {
+		x.acquire(g, w.vc)
+	}
 	g.hash = h64(g.hash, "wgwait", w.id)
 	g.fruitless = map[uint64]bool{}
 	x.progress(g)
@@ -815,6 +869,7 @@ type Options struct {
 	CapMap    func(n int, site string) int
 	KeepTrace bool
 	StepLimit int
+	Race      bool // happens-before race detection over the accesses hooked by instr -race
 }
 
 // Run executes body under the scheduler following prefix (then default choices).
@@ -822,6 +877,11 @@ func Run(ex *Explorer, prefix []int, body func(), o Options) *Exec {
 	x := &Exec{chans: map[uintptr]*chanInfo{}, prefix: prefix, mainDone: make(chan struct{}), ex: ex, CapMap: o.CapMap, keepTrace: o.KeepTrace, StepLimit: o.StepLimit}
 	X = x
 	root := &G{id: "m", wake: make(chan struct{}), fruitless: map[uint64]bool{}, lastVer: map[*MutexState]uint64{}}
+	if o.Race {
+		x.race = true
+		x.shadow = map[uintptr]*cell{}
+		root.vc = vclock{1}
+	}
 	x.order = append(x.order, root)
 	x.cur = root
 	x.wg.Add(1)
@@ -882,6 +942,7 @@ func Run(ex *Explorer, prefix []int, body func(), o Options) *Exec {
 		}
 	}
 	X = nil
+	x.shadow, x.pins = nil, nil
 	return x
 }
 
@@ -1001,4 +1062,24 @@ func (e *Explorer) explore(prefix []int, used int, body func(), check func(x *Ex
 			}
 		}
 	}
+}
+
+// recvSync: a receive is ordered after the matching send (or after close when the channel is drained), and
+// is itself ordered before the send that reuses its buffer slot.
+func (x *Exec) recvSync(g *G, ci *chanInfo) {
+	if !x.race {
+		return
+	}
+	if ci.ext {
+		x.acquire(g, x.ctxVC)
+		return
+	}
+	if len(ci.msgVC) > 0 {
+		x.acquire(g, ci.msgVC[0])
+		ci.msgVC = ci.msgVC[1:]
+	} else {
+		x.acquire(g, ci.closeVC)
+	}
+	ci.recvVC = append(ci.recvVC, g.vc.clone())
+	g.tick()
 }
